@@ -98,6 +98,8 @@ def factory_nodes() -> List[Tuple[str, Any]]:
     out.append(("factory:sweep-probe-class", {"processor": sweep_probe, "context_key": "k"}))
     out.append(("factory:slice(VMul)", {"processor": make_slice(C.VMul, FloatDataCollection)}))
     out.append(("factory:slice(VProbe)", {"processor": make_slice(C.VProbe, FloatDataCollection), "context_key": "k"}))
+    # a generated class derived from another generated class: slicers of sweeps
+    out.append(("factory:slice(sweep-probe)", {"processor": make_slice(sweep_probe, FloatDataCollection), "context_key": "k"}))
     out.append(("factory:rename-class", {"processor": resolve_symbol("rename:a:b")}))
     out.append(("factory:dataop-context-injector", ("node", _PipelineNodeFactory.create_data_operation_context_injector_probe_node(processor_cls=C.VMulDef, context_key="k"))))
     out.append(("factory:dataop-context-injector-sweep", ("node", _PipelineNodeFactory.create_data_operation_context_injector_probe_node(processor_cls=sweep_op, context_key="k"))))
